@@ -262,8 +262,8 @@ def run(ctx):
     ctx.exhaustive = len(insts) <= cap
     if len(insts) > cap:
         insts = ctx.rng.sample(insts, cap)
-    n = 400 if q else 8000
-    insts += tlc(ctx, "c28_j2s", emit=True, simulate=n, NS=3, NI=3, L=4, max_muts=3, mgs=(1, 2, 3, 4), extra=1,
+    n = 400 if q else 6000
+    insts += tlc(ctx, "c28_j2s", emit=True, simulate=n, NS=3, NI=2, L=4, max_muts=3, mgs=(1, 2, 3, 4), extra=1,
                  usermax=2)
     insts += tlc(ctx, "c28_j2t", emit=True, simulate=n, NS=3, NI=2, L=5, max_muts=3, mgs=(2, 3, 5),
                  tree_filter="completeunary")
